@@ -37,7 +37,7 @@ fn modelled(c: &Case) -> bool {
     let drops_ok = c.handlers.iter().enumerate().all(|(i, h)| {
         !h.contains(&HAct::Drop) || (matches!(c.items.get(i), Some(Item::Chunked { .. })) && h.first() == Some(&HAct::Drop))
     });
-    !c.rounds.iter().any(|r| r.rst || r.wr.iter().any(|w| matches!(w, W::Z | W::E)) || r.fl.iter().any(|f| matches!(f, F::E))) && drops_ok
+    !c.items.contains(&Item::Bad) && !c.rounds.iter().any(|r| r.rst || r.wr.iter().any(|w| matches!(w, W::Z | W::E)) || r.fl.iter().any(|f| matches!(f, F::E))) && drops_ok
 }
 
 /// F21 class (a predicate on the case): the first handler starts by waiting, at least
@@ -167,6 +167,15 @@ fn oracle(c: &Case, out: &RunOut) -> Verdict {
             why = "no termination: peer closed, every request answered and flushed, connection future still pending".into();
         }
     }
+    // every response byte produced reaches the socket before the connection ends
+    if why.is_empty() && out.finished && last.produced > last.accepted && !rst && !sock_err {
+        why = format!(
+            "connection ended (result {}) with {} of {} response bytes never written although the socket did not fail",
+            last.res,
+            last.produced - last.accepted,
+            last.produced
+        );
+    }
     // byte-for-byte against the reference run
     if why.is_empty() && !c.handlers.iter().any(|h| h.contains(&HAct::Drop)) && !rst && !sock_err {
         let r = reference(c);
@@ -174,6 +183,13 @@ fn oracle(c: &Case, out: &RunOut) -> Verdict {
         if !(a.len() <= b.len() && a[..] == b[..a.len()]) {
             let p = a.iter().zip(b.iter()).position(|(x, y)| x != y).unwrap_or(a.len().min(b.len()));
             why = format!("accepted bytes differ from the reference run at offset {p} (test {} bytes, reference {} bytes)", a.len(), b.len());
+        } else if out.finished && r.finished && !eof && a.len() < b.len() {
+            // both connections ended on their own (error / close path): nothing may be missing
+            why = format!(
+                "connection ended after {} accepted bytes, the reference run on an always-ready socket wrote {} (responses truncated)",
+                a.len(),
+                b.len()
+            );
         } else if !eof && a.len() < b.len() && last.started == complete && !out.finished && !stalled {
             // nothing to report here: handlers that never answer are part of the scripts
         }
@@ -345,7 +361,7 @@ fn body(rng: &mut Rng) -> RespBody {
 }
 
 fn gen_wake(rng: &mut Rng) -> Case {
-    let kind = rng.below(12);
+    let kind = rng.below(14);
     let wbs = *rng.pick(&[64usize, 4096, 32768]);
     let mut items = vec![];
     let mut handlers = vec![];
@@ -500,6 +516,28 @@ fn gen_wake(rng: &mut Rng) -> Case {
             }
             if rng.chance(1, 2) {
                 rounds.push(Round { add: 0, eof: true, wr: vec![W::A(1 << 20); 3], ..Default::default() });
+            }
+        }
+        11 | 12 => {
+            // a request that makes poll_request store a stream error (over-long head: 431, modelled;
+            // malformed head: 400, oracle-only) behind valid pipelined requests, while the socket
+            // takes only part of the write buffer and then returns Pending
+            name = "error-behind-valid";
+            let n = rng.range(1, 4) as usize;
+            for _ in 0..n {
+                items.push(Item::Req { h: 18, b: None });
+                handlers.push(vec![HAct::Respond(if rng.chance(1, 2) { RespBody::None } else { body(rng) })]);
+            }
+            let bad = rng.chance(1, 2);
+            items.push(if bad { Item::Bad } else { Item::Endless });
+            let first = 18 * n + if bad { BAD_REQ.len() } else { 140_000 };
+            let part = vec![W::A(rng.range(1, 120) as usize), W::P];
+            rounds.push(Round { add: first, wr: part.clone(), ..Default::default() });
+            if !bad {
+                rounds.push(Round { add: 10_000, wr: if rng.chance(1, 2) { part } else { vec![] }, ..Default::default() });
+            }
+            for _ in 0..rng.range(0, 3) {
+                rounds.push(Round { add: 0, wr: vec![W::A(rng.range(1, 200) as usize), W::P], ..Default::default() });
             }
         }
         _ => {
